@@ -556,7 +556,11 @@ static bool judge(const PIP& p, int status, const Data& d, const Reporter& rp, c
   }
   std::string bounded_trig;     // computed lazily
   auto small_param_trigger = [&]() -> std::string {
-    if (bounded_trig.empty()) bounded_trig = some_parameter_bounded(d) ? "feasible_region_bounds_a_parameter" : "none";
+    if (bounded_trig.empty()) {
+      std::set<int> distinct(d.rows.begin(), d.rows.end());
+      // the defect repaired by 41459f2 showed with <= 3 rows; what is left of it needs at least 4
+      bounded_trig = !some_parameter_bounded(d) ? "none" : distinct.size() >= 4 ? "feasible_region_bounds_a_parameter_with_4_or_more_rows" : "feasible_region_bounds_a_parameter";
+    }
     return bounded_trig;
   };
   int nb = d.big >= 0 ? 3 : 1;
@@ -618,7 +622,7 @@ static bool judge(const PIP& p, int status, const Data& d, const Reporter& rp, c
       if (sat) { rp.viol(site, "status:unfeasible-but-some-valuation-feasible", "none", "UNFEASIBLE_PIP_PROBLEM", "feasible at (dimensions in order) " + ref::vec_str(w), "witness outside the window"); ok = false; }
     }
     if (status == 1 && fs == 0 && tree_bottom_everywhere) {
-      rp.viol(site, "status:optimized-but-unfeasible-for-every-valuation", "none", "OPTIMIZED_PIP_PROBLEM, tree: " + tree_text(p), "UNFEASIBLE_PIP_PROBLEM (no non-negative integral (x, p) satisfies the rows)");
+      rp.viol(site, "status:optimized-but-unfeasible-for-every-valuation", rp.first_solve ? "none" : "resolve_over_existing_tree", "OPTIMIZED_PIP_PROBLEM, tree: " + tree_text(p), "UNFEASIBLE_PIP_PROBLEM (no non-negative integral (x, p) satisfies the rows)");
       ok = false;
     }
   }
@@ -761,7 +765,8 @@ static std::string incremental_trigger(const PIP& p) {
   if (p.current_solution == 0) return "";
   std::vector<const PPL::PIP_Solution_Node*> leaves; bool any_art = false;
   collect_leaves(p.current_solution, leaves, any_art);
-  if (p.external_space_dim > p.internal_space_dim) return any_art ? "dimensions_added_to_tree_with_artificial_parameters" : "";
+  if (p.external_space_dim > p.internal_space_dim && any_art) return "dimensions_added_to_tree_with_artificial_parameters";
+  // (new dimensions are the highest ones: the indices of the old variables and parameters used below are unaffected)
   const PPL::Variables_Set& ps = p.parameters;
   for (size_t ci = p.first_pending_constraint; ci < p.input_cs.size(); ++ci) {
     const PPL::Constraint& c = p.input_cs[ci];
@@ -775,7 +780,7 @@ static std::string incremental_trigger(const PIP& p) {
         const PPL::Coefficient& co = c.coefficient(PPL::Variable(dim));
         if (is_param) { if (co != 0 && filled.count(p_index)) return "pending_row_parameter_column_overwritten_after_nonbasic_variable"; ++p_index; }
         else {
-          if (co != 0 && v_index < sn.basis.size() && !sn.basis[v_index] && sn.mapping[v_index] < sn.tableau.t.num_rows()) {
+          if (co != 0 && v_index < sn.tableau.s.num_columns() && v_index < sn.basis.size() && !sn.basis[v_index] && sn.mapping[v_index] < sn.tableau.t.num_rows()) {
             const PPL::PIP_Tree_Node::Row& tr = sn.tableau.t[sn.mapping[v_index]];
             for (PPL::PIP_Tree_Node::Row::const_iterator j = tr.begin(); j != tr.end(); ++j) if (j.index() > 0 && *j != 0) filled.insert(j.index());
           }
